@@ -182,6 +182,11 @@ def finishOp (d : DState) (old : Option Sys) (s : Sys) (extra : List (String × 
 /-- chain-0 blocks for the numbers `lo, …, hi-1` -/
 def canonRange (d : DState) (lo hi : Nat) : List Block := (List.range (hi - lo)).map fun i => canonical d (lo + i) 0
 
+/-- the number a peer was asked for: `n + dwant`; a negative value stands for "some other number" -/
+def wantOf (n : Nat) (dw : Int) : Nat :=
+  let w := (n : Int) + dw
+  if w < 0 then n + 1 else w.toNat
+
 def completeN : Nat → Sys → Sys
   | 0, s => s
   | k + 1, s =>
@@ -220,7 +225,7 @@ def handle (d : DState) (j : Json) : DState × Json :=
           | some b =>
             let r : Req := { id := id, block := b, waitPersist := src == "consensus" }
             let ev : Event := if src == "peer" then
-                .peer (match getInt a "dwant" with | some dw => ((n : Int) + dw).toNat | none => n) r
+                .peer (match getInt a "dwant" with | some dw => wantOf n dw | none => n) r
               else .submit r
             quiesceA true FUEL (applyEv acc ev).1
           | none => acc
@@ -273,7 +278,7 @@ def handle (d : DState) (j : Json) : DState × Json :=
             let ev : Event :=
               if src == "peer" then
                 let want : Nat := match getInt j "dwant" with
-                  | some dw => ((n : Int) + dw).toNat
+                  | some dw => wantOf n dw
                   | none => n
                 .peer want r
               else .submit r
